@@ -286,6 +286,8 @@ pub struct Knobs {
     /// names that need escaping in DOT output (C18 only)
     pub fancy_names: bool,
     pub max_depth: usize,
+    /// allow two patterns of one mode to carry the same token type (rarely)
+    pub duplicate_types: bool,
 }
 
 impl Default for Knobs {
@@ -304,6 +306,7 @@ impl Default for Knobs {
             allow_empty_mode: false,
             fancy_names: false,
             max_depth: 3,
+            duplicate_types: true,
         }
     }
 }
@@ -312,9 +315,9 @@ pub const PATTERN_POOL: &[char] = &[
     'a', 'b', 'c', '0', '1', '\u{e9}', '\u{20ac}', '\u{1F600}', '\n', ' ', '"', '-', 'x', 'a', 'b', '\n',
     // characters whose low byte is 0x0A / 0x0D without being line breaks, other Unicode line
     // separators (which must NOT count as line breaks), a byte order mark
-    '\u{10a}', '\u{4e0a}', '\u{2028}', '\u{10d}',
+    '\u{10a}', '\u{4e0a}', '\u{2028}', '\u{10d}', '\0',
 ];
-pub const UNMATCHED_POOL: &[char] = &['#', '~', '\u{df}', '\u{2192}', '\r', '\t', '%', '#', '~', '\u{200a}', '\u{85}', '\u{feff}', '\u{30a}'];
+pub const UNMATCHED_POOL: &[char] = &['#', '~', '\u{df}', '\u{2192}', '\r', '\t', '%', '#', '~', '\u{200a}', '\u{85}', '\u{feff}', '\u{30a}', '\0'];
 
 #[derive(Clone, Debug)]
 pub struct Alphabet {
@@ -550,7 +553,9 @@ pub fn gen_config(rng: &mut Rng, al: &Alphabet, k: &Knobs) -> GenConfig {
             if cands.is_empty() {
                 break;
             }
-            let t = *rng.pick(&cands);
+            // rarely two patterns of one mode report the same token type (legal: the type of a token
+            // says what it is, not which pattern found it)
+            let t = if k.duplicate_types && types.len() >= 2 && rng.chance(1, 10) { types[0] } else { *rng.pick(&cands) };
             types.push(t);
             let depth = rng.range(0, k.max_depth);
             let rx = gen_pattern_rx(rng, al, depth, k.allow_nullable);
@@ -655,7 +660,7 @@ pub fn gen_input(rng: &mut Rng, al: &Alphabet, gc: &[&GenConfig], len: (usize, u
             // runs
             1 => {
                 let c = *rng.pick(&al.all);
-                let r = if long && rng.chance(1, 4) { rng.range(20, 300) } else { rng.range(1, 4) };
+                let r = if long && rng.chance(1, 4) { rng.range(20, len.1.max(21)) } else { rng.range(1, 4) };
                 for _ in 0..r {
                     s.push(c);
                 }
@@ -706,6 +711,15 @@ pub struct GenWorld {
 }
 
 pub fn gen_world(rng: &mut Rng, k: &Knobs) -> GenWorld {
+    // scnr re-runs a lookahead automaton at every candidate end and retries from every skipped
+    // character: cubic in the length of a run. That is performance, not progress; very long
+    // inputs are therefore only combined with lookahead-free configurations, so that the hang
+    // watchdog (20 s) never mistakes slowness for a hang.
+    let mut k = k.clone();
+    if k.lookahead_pct > 0 && k.input_len.1 > 300 {
+        k.input_len.1 = 300;
+    }
+    let k = &k;
     let al = gen_alphabet(rng, k.newline_rich);
     let nc = rng.range(k.configs.0, k.configs.1);
     let configs: Vec<GenConfig> = (0..nc).map(|_| gen_config(rng, &al, k)).collect();
@@ -731,7 +745,7 @@ pub fn draw_lookahead_pct(rng: &mut Rng) -> usize {
 
 pub const VARIANT_KINDS: &[&str] = &[
     "token_type", "swap_patterns", "la_add", "la_remove", "la_flip", "la_change", "tr_add",
-    "tr_retarget", "tr_remove", "rename_mode", "swap_modes", "pattern_char", "dup_mode", "drop_pattern", "la_char",
+    "tr_retarget", "tr_remove", "rename_mode", "swap_modes", "pattern_char", "dup_mode", "drop_pattern", "la_char", "swap_mode_names",
 ];
 
 /// Returns a configuration that differs from `base` in exactly one aspect, or None if the
@@ -837,6 +851,20 @@ pub fn near_variant(rng: &mut Rng, base: &Config, kind: &str, al: &Alphabet) -> 
         }
         "rename_mode" => {
             c[mi].name.push('_');
+        }
+        "swap_mode_names" => {
+            // only the NAMES of two modes are exchanged (patterns and transitions stay in place)
+            if c.len() < 2 {
+                return None;
+            }
+            let a = rng.below(c.len());
+            let mut b = rng.below(c.len());
+            while b == a {
+                b = rng.below(c.len());
+            }
+            let (na, nb) = (c[a].name.clone(), c[b].name.clone());
+            c[a].name = nb;
+            c[b].name = na;
         }
         "swap_modes" => {
             if c.len() < 2 {
